@@ -267,9 +267,12 @@ fn create_semantic_token(
     token_modifier: u32,
 ) -> SemanticToken {
     let Position { line, character } = as_position(token.range.start, text);
-    let length = token
-        .range
-        .len()
+    // LSP lengths count UTF-16 code units, not bytes
+    let length = text
+        .get(token.range.clone())
+        .map_or(token.range.len(), |token_text| {
+            token_text.encode_utf16().count()
+        })
         .try_into()
         .expect("Cannot convert range length to u32");
     let delta_line = line - previous_token_pos.line;
